@@ -90,7 +90,7 @@ Next == \/ /\ tree = <<"seed">>
                 /\ d' = i
                 /\ toks' = Tok3(Unparse(p))
                 /\ data' = DataFor(i, p)
-                /\ out' = Eval(p, [this |-> NormMap(DataFor(i, p)), log |-> <<>>])
+                /\ out' = Outcome(p, [this |-> NormMap(DataFor(i, p)), log |-> <<>>])
                 /\ fields' = FieldsOf(p)
 IsCase == tree[1] \notin {"seed", "group"}
 Spec == Init /\ [][Next]_vars
